@@ -636,6 +636,37 @@ func minimise(work, bin string, r *b.Repo, inv gcInv, key string, first *finding
 func genRepo(rng *rand.Rand) *b.Repo {
 	repo := b.Generate(rng, b.GenOpts{MinTargets: 5, MaxTargets: 13, Tests: true, GC: true, Root: true, Maps: rng.Intn(4) == 0, DepOneIn: 3 + rng.Intn(3)})
 	sanitise(repo)
+	// more tests whose data is a file that another target of the package has as a source (directly or
+	// inside a directory source): the generator does this for a third of the tests only
+	for _, t := range repo.Targets {
+		if t.Kind != b.Gentest || rng.Intn(2) != 0 {
+			continue
+		}
+		var cands []string
+		for _, p := range repo.Targets {
+			if p == t || p.Pkg != t.Pkg {
+				continue
+			}
+			for _, f := range p.LocalSrcFiles() {
+				if strings.HasSuffix(f, "/") {
+					f += "x.txt"
+				}
+				if !inList(t.LocalFiles(), f) {
+					cands = append(cands, f)
+				}
+			}
+		}
+		if len(cands) == 0 {
+			continue
+		}
+		f := cands[rng.Intn(len(cands))]
+		if t.NamedData != nil {
+			k := b.SortedKeys(t.NamedData)[0]
+			t.NamedData[k] = append(t.NamedData[k], f)
+		} else {
+			t.Data = append(t.Data, f)
+		}
+	}
 	return repo
 }
 
